@@ -175,7 +175,8 @@ Definition merge_meths (v : version) (h : list combo) (ms : list (mid * list nat
       (snd ka) ms) cfm ms.
 
 (* inheritFlavor.  Go's recursion ends because a flavor already on the list returns at once; the model
-   carries fuel and reports its exhaustion (never happens: Proofs.inherit_never_out_of_fuel). *)
+   carries fuel and reports its exhaustion (never happens on admissible or refused forms: Properties.C11_admissible_accepted,
+   C11_inadmissible_refused). *)
 Fixpoint inherit_flavor (v : version) (fuel : nat) (st : state) (obj : flavor) (cf : nat) : option flavor :=
   match fuel with
   | O => None
